@@ -156,7 +156,7 @@ def _emit(ctx, N, D, caps, view, sim=None, depth=None):
                      emit="EmitLast" if sim else "Emit")
     name = "Cursor_N%d_D%d_%s%s%s%s.cfg" % (N, D, _b(caps[0])[0], _b(caps[1])[0], _b(caps[2])[0], "v" if view else ("s" if sim else "a"))
     kw = dict(simulate=sim, depth=depth, seed=ctx.seed + 1) if sim else {}
-    r = ctx.tlc("Cursor", name, cfg_text=cfg, workers=1 if sim else 8, **kw)
+    r = ctx.tlc("Cursor", name, cfg_text=cfg, workers=1 if (sim or (view and not ctx.thorough)) else 8, **kw)
     return [t["hist"] for t in r.tr]
 
 
